@@ -1,12 +1,571 @@
 //! Corpora for C05, C06, C07, C10, C13, C14, C19, C20.
 
+use super::e1::{prune, root_grammar};
 use super::*;
+use crate::wf;
 
-pub fn c05(_tier: Tier) -> Vec<Case> { Vec::new() }
-pub fn c06(_tier: Tier) -> Vec<Case> { Vec::new() }
-pub fn c07(_tier: Tier) -> Vec<Case> { Vec::new() }
-pub fn c10(_tier: Tier) -> Vec<Case> { Vec::new() }
-pub fn c13(_tier: Tier) -> Vec<Case> { Vec::new() }
-pub fn c14(_tier: Tier) -> Vec<Case> { Vec::new() }
-pub fn c19(_tier: Tier) -> Vec<Case> { Vec::new() }
-pub fn c20(_tier: Tier) -> Vec<Case> { Vec::new() }
+fn dirs(noskip: bool, extra: &[Directive]) -> Vec<Directive> {
+    let mut d: Vec<Directive> = extra.to_vec();
+    if noskip {
+        d.push(Directive::NoSkipWs);
+    }
+    d
+}
+
+// ------------------------------------------------------------------------------------ C05 / C06
+
+/// Base grammars in which rules are reached several times at one offset through different contexts.
+/// Returns (grammar without any @memoize, names of the rules that may be memoized).
+pub fn memo_bases(tier: Tier) -> Vec<(Grammar, Vec<String>)> {
+    let roots: Vec<Expr> = vec![
+        // same rule, same offset, three continuations
+        choice(vec![seq(vec![field("a", "A"), lit("x")]), seq(vec![field("a", "A"), lit("c")]), seq(vec![field("b", "B"), field("a", "A")])]),
+        // closure retrying, then another caller at the offset where the closure stopped
+        seq(vec![star(seq(vec![field("a", "A"), lit("x")])), opt(field("b", "B")), opt(field("a", "A"))]),
+        // lookahead, then the real match
+        choice(vec![seq(vec![and(rref("A")), field("a", "A"), lit("x")]), seq(vec![not(seq(vec![rref("A"), lit("x")])), field("a", "A")]), field("b", "B")]),
+        // nested callers: B is reached from Root and from A
+        choice(vec![seq(vec![field("b", "B"), lit("x")]), seq(vec![field("a", "A"), opt(field("b", "B"))]), star(field("b", "B"))]),
+    ];
+    let a_atoms = vec![lit("b"), lit("c"), field("b", "B"), rref("B")];
+    let b_atoms = vec![lit("b"), lit("c"), lit("bc")];
+    let (a_bodies, b_bodies): (Vec<Expr>, Vec<Expr>) = match tier {
+        Tier::Quick => (
+            vec![
+                field("b", "B"),
+                seq(vec![field("b", "B"), lit("c")]),
+                seq(vec![lit("b"), opt(field("b", "B"))]),
+                choice(vec![seq(vec![rref("B"), lit("c")]), field("b", "B")]),
+                plus(field("b", "B")),
+                seq(vec![not(lit("c")), field("b", "B"), opt(lit("b"))]),
+            ],
+            vec![lit("b"), seq(vec![lit("b"), opt(lit("c"))]), choice(vec![lit("bc"), lit("b")]), plus(lit("b")), choice(vec![lit("c"), seq(vec![lit("b"), lit("b")])])],
+        ),
+        Tier::Thorough => (trees(&a_atoms, &ALL_OPS, 3), trees(&b_atoms, &NO_LOOKAHEAD_OPS, 2)),
+    };
+    let mut out = Vec::new();
+    let mut seen = std::collections::BTreeSet::new();
+    for r in &roots {
+        for a in &a_bodies {
+            for b in &b_bodies {
+                let g = Grammar {
+                    rules: vec![
+                        Rule::normal("Root", vec![Directive::Export, Directive::NoSkipWs, Directive::Position], r.clone()),
+                        Rule::normal("A", vec![Directive::NoSkipWs, Directive::Position], a.clone()),
+                        Rule::normal("B", vec![Directive::NoSkipWs, Directive::String], b.clone()),
+                    ],
+                };
+                if !wf::well_formed(&g) {
+                    continue;
+                }
+                if !seen.insert(crate::print::grammar_text(&g)) {
+                    continue;
+                }
+                out.push((g, vec!["Root".to_string(), "A".to_string(), "B".to_string()]));
+            }
+        }
+    }
+    out
+}
+
+pub fn with_memo(g: &Grammar, names: &[String], mask: u32) -> Grammar {
+    let mut g2 = g.clone();
+    for (i, n) in names.iter().enumerate() {
+        if mask & (1 << i) != 0 {
+            if let Some(r) = g2.rules.iter_mut().find(|r| &r.name == n) {
+                r.directives.insert(0, Directive::Memoize);
+            }
+        }
+    }
+    g2
+}
+
+fn memo_inputs(tier: Tier) -> InputSpec {
+    InputSpec::Strings { alphabet: vec!['b', 'c', 'x'], max_len: if tier == Tier::Quick { 4 } else { 5 } }
+}
+
+pub fn c05(tier: Tier) -> Vec<Case> {
+    let mut b = Builder::new();
+    let inputs = memo_inputs(tier);
+    for (g, names) in memo_bases(tier) {
+        let grp = b.new_group();
+        for (vi, mask) in subsets(names.len()).into_iter().enumerate() {
+            let gv = with_memo(&g, &names, mask);
+            b.add_variant(grp, vi, "memo-subsets", gv, inputs.clone(), &format!("mask{mask}"));
+        }
+    }
+    b.cases
+}
+
+/// prefix the body of every normal rule with its own probe (an extern rule that consumes nothing and
+/// records the offset at which it was called)
+pub fn with_probes(g: &Grammar) -> Grammar {
+    let mut rules = Vec::new();
+    let mut probes = Vec::new();
+    let mut i = 0;
+    for r in &g.rules {
+        if let RuleDef::Normal(body) = &r.def {
+            let pname = format!("P{i}");
+            let func = format!("hrt::user::probe{i}");
+            probes.push(Rule::ext(&pname, &func, Some("hrt::user::U")));
+            let nb = match body {
+                Expr::Seq(parts) => {
+                    let mut v = vec![rref(&pname)];
+                    v.extend(parts.iter().cloned());
+                    seq(v)
+                }
+                other => seq(vec![rref(&pname), other.clone()]),
+            };
+            rules.push(Rule { name: r.name.clone(), directives: r.directives.clone(), def: RuleDef::Normal(nb) });
+            i += 1;
+        } else {
+            rules.push(r.clone());
+        }
+    }
+    rules.extend(probes);
+    Grammar { rules }
+}
+
+pub fn c06(tier: Tier) -> Vec<Case> {
+    let mut b = Builder::new();
+    let inputs = memo_inputs(tier);
+    for (g, names) in memo_bases(tier) {
+        for mask in subsets(names.len()) {
+            if mask == 0 {
+                continue;
+            }
+            let gv = with_probes(&with_memo(&g, &names, mask));
+            b.add("memo-probes", gv, inputs.clone());
+            b.last().note = format!("mask{mask}");
+        }
+    }
+    b.cases
+}
+
+// ------------------------------------------------------------------------------------------ C07
+
+fn n_rule() -> Rule {
+    Rule::normal("N", vec![Directive::String, Directive::NoSkipWs], lit("n"))
+}
+
+pub fn c07(tier: Tier) -> Vec<Case> {
+    let mut b = Builder::new();
+    let len = if tier == Tier::Quick { 5 } else { 7 };
+    // (a) the usual shape
+    let tails: Vec<(&str, Expr)> = vec![
+        ("plus", seq(vec![lit("+"), field("r", "N")])),
+        ("minus", seq(vec![lit("-"), field("r", "N")])),
+        ("bang", lit("!")),
+        ("plusplus", seq(vec![lit("+"), lit("+")])),
+    ];
+    let bases: Vec<(&str, Expr)> = vec![("n", field("n", "N")), ("nn", seq(vec![field("n", "N"), field("m", "N")])), ("bang", lit("!"))];
+    let inputs_a = InputSpec::Strings { alphabet: vec!['n', '+', '-', '!'], max_len: len };
+    let rec = |tail: &Expr| -> Expr {
+        match tail {
+            Expr::Seq(parts) => {
+                let mut v = vec![bfield("l", "A")];
+                v.extend(parts.iter().cloned());
+                seq(v)
+            }
+            other => seq(vec![bfield("l", "A"), other.clone()]),
+        }
+    };
+    let mut tail_sets: Vec<Vec<usize>> = Vec::new();
+    for i in 0..tails.len() {
+        tail_sets.push(vec![i]);
+        for j in 0..tails.len() {
+            if i != j {
+                tail_sets.push(vec![i, j]);
+            }
+        }
+    }
+    let mut base_sets: Vec<Vec<usize>> = Vec::new();
+    for i in 0..bases.len() {
+        base_sets.push(vec![i]);
+        for j in 0..bases.len() {
+            if i != j {
+                base_sets.push(vec![i, j]);
+            }
+        }
+    }
+    for ts in &tail_sets {
+        for bs in &base_sets {
+            for base_first in [false, true] {
+                for root_kind in 0..2 {
+                    let mut arms: Vec<Expr> = Vec::new();
+                    let recs: Vec<Expr> = ts.iter().map(|i| rec(&tails[*i].1)).collect();
+                    let bas: Vec<Expr> = bs.iter().map(|i| bases[*i].1.clone()).collect();
+                    if base_first {
+                        arms.extend(bas.iter().cloned());
+                        arms.extend(recs.iter().cloned());
+                    } else {
+                        arms.extend(recs.iter().cloned());
+                        arms.extend(bas.iter().cloned());
+                    }
+                    let root = if root_kind == 0 { field("a", "A") } else { seq(vec![field("a", "A"), Expr::Eoi]) };
+                    let g = Grammar {
+                        rules: vec![
+                            Rule::normal("Root", vec![Directive::Export, Directive::Position, Directive::NoSkipWs], root),
+                            Rule::normal("A", vec![Directive::Leftrec, Directive::Position, Directive::NoSkipWs], choice(arms)),
+                            n_rule(),
+                        ],
+                    };
+                    if !wf::well_formed(&g) {
+                        continue;
+                    }
+                    let fam = if base_first { "leftrec/usual/base-first" } else { "leftrec/usual/recursive-first" };
+                    if b.add(fam, g, inputs_a.clone()) {
+                        b.last().note = if base_first { "base-first".into() } else { "recursive-first closed-form".into() };
+                    }
+                }
+            }
+        }
+    }
+    // (c) indirect recursion through a non-memoized rule
+    let inputs_c = InputSpec::Strings { alphabet: vec!['n', '+', '!'], max_len: len };
+    for b_body in [
+        seq(vec![bfield("l", "A"), lit("+"), field("r", "N")]),
+        choice(vec![seq(vec![bfield("l", "A"), lit("+"), field("r", "N")]), seq(vec![bfield("l", "A"), lit("!")])]),
+    ] {
+        for a_body in [choice(vec![field("b", "B"), field("n", "N")]), choice(vec![seq(vec![field("b", "B"), opt(lit("!"))]), field("n", "N")])] {
+            let g = Grammar {
+                rules: vec![
+                    Rule::normal("Root", vec![Directive::Export, Directive::Position, Directive::NoSkipWs], seq(vec![field("a", "A"), opt(Expr::Eoi)])),
+                    Rule::normal("A", vec![Directive::Leftrec, Directive::Position, Directive::NoSkipWs], a_body.clone()),
+                    Rule::normal("B", vec![Directive::Position, Directive::NoSkipWs], b_body.clone()),
+                    n_rule(),
+                ],
+            };
+            if wf::well_formed(&g) && b.add("leftrec/indirect", g, inputs_c.clone()) {
+                b.last().note = "recursive-first".into();
+            }
+        }
+    }
+    // (d) unusual bodies within the quantifier
+    let inputs_d = InputSpec::Strings { alphabet: vec!['n', 'x', 'y', '+'], max_len: len };
+    let unusual: Vec<(&str, Expr)> = vec![
+        ("opt-rec", seq(vec![opt(bfield("inner", "A")), lit("x")])),
+        ("two-tails", choice(vec![seq(vec![bfield("l", "A"), lit("x")]), seq(vec![bfield("l", "A"), lit("y"), lit("y")]), field("n", "N")])),
+        ("grouped", seq(vec![choice(vec![bfield("l", "A"), field("n", "N")]), lit("x")])),
+        ("twice", choice(vec![seq(vec![bfield("l", "A"), lit("+"), bfield("r", "A")]), field("n", "N")])),
+        ("rec-in-closure-tail", choice(vec![seq(vec![bfield("l", "A"), plus(lit("x"))]), field("n", "N")])),
+        ("lookahead-tail", choice(vec![seq(vec![bfield("l", "A"), lit("x"), not(lit("y"))]), field("n", "N")])),
+        ("unnamed-rec", choice(vec![seq(vec![rref("A"), lit("x")]), field("n", "N")])),
+        ("nullable-base", choice(vec![seq(vec![bfield("l", "A"), lit("x")]), opt(field("n", "N"))])),
+    ];
+    for (name, body) in unusual {
+        for root in [field("a", "A"), seq(vec![field("a", "A"), Expr::Eoi]), seq(vec![opt(lit("+")), field("a", "A"), opt(field("b", "A"))])] {
+            let g = Grammar {
+                rules: vec![
+                    Rule::normal("Root", vec![Directive::Export, Directive::Position, Directive::NoSkipWs], root),
+                    Rule::normal("A", vec![Directive::Leftrec, Directive::Position, Directive::NoSkipWs], body.clone()),
+                    n_rule(),
+                ],
+            };
+            if wf::well_formed(&g) && b.add(&format!("leftrec/unusual/{name}"), g, inputs_d.clone()) {
+                b.last().note = "recursive-first".into();
+            }
+        }
+    }
+    b.cases
+}
+
+// ------------------------------------------------------------------------------------------ C10
+
+pub fn c10(tier: Tier) -> Vec<Case> {
+    let mut b = Builder::new();
+    // (1) the C01 tree corpus: no memo, no leftrec -> the "furthest" clause, exact where no lookahead
+    let leaves = vec![
+        Rule::normal("X", vec![Directive::Position], choice(vec![lit("b"), seq(vec![lit("c"), lit("b")])])),
+        Rule::chr("D", vec![CharPart::Char(LitChar::canon('c')), CharPart::Range(LitChar::canon('a'), LitChar::canon('a'))]),
+        Rule::normal("K", vec![Directive::Check(vec!["hrt".into(), "user".into(), "chk_nob".into()]), Directive::String], seq(vec![range('b', 'c'), opt(lit("c"))])),
+        Rule::ext("T", "hrt::user::tok", None),
+    ];
+    let full_atoms = vec![lit("b"), lit("bc"), ilit("B"), range('b', 'c'), rref("char"), Expr::Eoi, rref("X"), field("f", "X"), rref("D"), field("k", "K"), field("t", "T")];
+    let small_atoms = vec![lit("b"), lit("bc"), rref("X"), field("k", "K")];
+    let (k_full, k_small, len) = match tier {
+        Tier::Quick => (3, 4, 4),
+        Tier::Thorough => (4, 5, 5),
+    };
+    let inputs = InputSpec::Strings { alphabet: vec!['a', 'b', 'c', 'B', ' '], max_len: len };
+    let mut all: Vec<Expr> = trees(&full_atoms, &ALL_OPS, k_full);
+    for t in trees_by_size(&small_atoms, &ALL_OPS, k_small).into_iter().skip(k_full) {
+        all.extend(t);
+    }
+    for e in &all {
+        for noskip in [false, true] {
+            let g = root_grammar(dirs(noskip, &[Directive::Export, Directive::Position]), e.clone(), &leaves);
+            if wf::well_formed(&g) {
+                b.add(if noskip { "errors/no_skip_ws" } else { "errors/skip" }, g, inputs.clone());
+            }
+        }
+    }
+    // (2) memoized grammars: the offset must be real
+    let minputs = memo_inputs(tier);
+    for (g, names) in memo_bases(Tier::Quick) {
+        for mask in [1u32, 2, 4, 7] {
+            b.add("errors/memo", with_memo(&g, &names, mask), minputs.clone());
+        }
+    }
+    // (3) left-recursive grammars: never the sentinel when recursive alternatives come first
+    for c in c07(Tier::Quick) {
+        if b.add(&format!("errors/{}", c.family), c.grammar.clone(), c.inputs.clone()) {
+            b.last().note = c.note.clone();
+        }
+    }
+    // sentinel through two callers at one offset
+    let g = Grammar {
+        rules: vec![
+            Rule::normal("Root", vec![Directive::Export, Directive::NoSkipWs], choice(vec![seq(vec![field("a", "A"), lit("y")]), seq(vec![field("a", "A"), lit("z")])])),
+            Rule::normal("A", vec![Directive::Leftrec, Directive::NoSkipWs], choice(vec![seq(vec![bfield("l", "A"), lit("x")]), field("n", "N")])),
+            n_rule(),
+        ],
+    };
+    b.add("errors/leftrec/two-callers", g, InputSpec::Strings { alphabet: vec!['n', 'x', 'y', 'z', 'c'], max_len: len.min(4) });
+    b.last().note = "recursive-first".into();
+    b.cases
+}
+
+// ------------------------------------------------------------------------------------------ C13
+
+pub fn c13(tier: Tier) -> Vec<Case> {
+    let mut b = Builder::new();
+    let (k_ctx, len) = match tier {
+        Tier::Quick => (3, 4),
+        Tier::Thorough => (4, 5),
+    };
+    let inputs = InputSpec::Strings { alphabet: vec!['b', 'c', ' '], max_len: len };
+    let ctxs = contexts(&[lit("b"), field("f", "X")], &NO_LOOKAHEAD_OPS, k_ctx);
+    // included bodies
+    let bodies: Vec<(&str, Expr)> = vec![
+        ("nofield", seq(vec![lit("c"), opt(lit("b"))])),
+        ("one", field("g", "X")),
+        ("same-as-context", field("f", "X")),
+        ("two", seq(vec![field("g", "X"), opt(field("h", "Y"))])),
+        ("choice", choice(vec![field("g", "X"), seq(vec![lit("c"), field("h", "Y")])])),
+        ("closure", star(seq(vec![lit("c"), field("g", "X")]))),
+        ("nested", seq(vec![inc("Inc2"), opt(lit("c"))])),
+        ("othertype", field("f", "Y")),
+    ];
+    let inc_dirs: Vec<(&str, Vec<Directive>)> = vec![
+        ("plain", vec![]),
+        ("no_skip_ws", vec![Directive::NoSkipWs]),
+        ("memoize", vec![Directive::Memoize]),
+        ("position", vec![Directive::Position]),
+        ("string", vec![Directive::String]),
+        ("check", vec![Directive::Check(vec!["hrt".into(), "user".into(), "chk_never".into()])]),
+    ];
+    for c in &ctxs {
+        for (bn, body) in &bodies {
+            for (dn, idirs) in &inc_dirs {
+                // directives other than plain only on the first few contexts (they must be inert)
+                for root_noskip in [false, true] {
+                    let leaves = |with_inc: bool| -> Vec<Rule> {
+                        let mut v = vec![
+                            Rule::normal("X", vec![Directive::String, Directive::NoSkipWs], seq(vec![lit("b"), opt(lit("b"))])),
+                            Rule::normal("Y", vec![Directive::String, Directive::NoSkipWs], lit("c")),
+                            Rule::normal("Inc2", vec![], seq(vec![field("k", "X")])),
+                        ];
+                        if with_inc {
+                            v.push(Rule::normal("Inc", idirs.clone(), body.clone()));
+                        }
+                        v
+                    };
+                    let rd = dirs(root_noskip, &[Directive::Export, Directive::Position]);
+                    let g_inc = root_grammar(rd.clone(), fill(c, &inc("Inc")), &leaves(true));
+                    let g_inl = root_grammar(rd.clone(), fill(c, &group(body.clone())), &leaves(false));
+                    // the quantifier: both must be well-formed as far as the *inlined* grammar goes
+                    if !wf::well_formed(&g_inl) {
+                        continue;
+                    }
+                    // a @string included rule may legally contain shapes a normal rule may not; only
+                    // the inlined grammar's well-formedness counts. The include variant must not be
+                    // excluded for a reason that inlining removes (e.g. Whitespace recursion).
+                    let an = wf::Analysis::new(&g_inc);
+                    if an.problems().iter().any(|p| !matches!(p, wf::Problem::Restricted(_))) {
+                        continue;
+                    }
+                    let grp = b.new_group();
+                    let fam = format!("include/{bn}/{dn}");
+                    if b.add_variant(grp, 0, &fam, g_inc, inputs.clone(), "include") {
+                        b.add_variant(grp, 1, &fam, g_inl, inputs.clone(), "inlined");
+                    }
+                }
+            }
+        }
+    }
+    b.cases
+}
+
+// ------------------------------------------------------------------------------------------ C14
+
+fn chk(name: &str) -> Directive {
+    Directive::Check(vec!["hrt".into(), "user".into(), name.into()])
+}
+
+pub fn c14(tier: Tier) -> Vec<Case> {
+    let mut b = Builder::new();
+    let (k_ctx, len) = match tier {
+        Tier::Quick => (2, 3),
+        Tier::Thorough => (3, 4),
+    };
+    let inputs = InputSpec::Strings { alphabet: vec!['b', 'c', ' '], max_len: len };
+    // rule kinds carrying checks / extern rules; `H` is the hooked rule
+    let kinds = |ctxv: bool| -> Vec<(&'static str, Vec<Rule>)> {
+        let c0 = if ctxv { "chkx0" } else { "chk0" };
+        let c1 = if ctxv { "chkx1" } else { "chk1" };
+        let mut v = vec![
+            ("struct", vec![Rule::normal("H", vec![chk(c0)], seq(vec![field("x", "X"), opt(field("y", "X"))]))]),
+            ("struct-two-checks", vec![Rule::normal("H", vec![chk(c0), Directive::Position, chk(c1)], seq(vec![field("x", "X"), opt(lit("c"))]))]),
+            ("alias", vec![Rule::normal("H", vec![chk(c0)], seq(vec![opt(lit("c")), over("X")]))]),
+            ("enum", vec![Rule::normal("H", vec![chk(c0)], choice(vec![over("X"), seq(vec![lit("c"), over("Y")])]))]),
+            ("string", vec![Rule::normal("H", vec![chk(c0), Directive::String], seq(vec![lit("b"), opt(lit("c"))]))]),
+            ("string-position", vec![Rule::normal("H", vec![Directive::String, chk(c0), Directive::Position], plus(range('b', 'c')))]),
+        ];
+        if !ctxv {
+            v.push((
+                "char",
+                vec![Rule {
+                    name: "H".into(),
+                    directives: vec![chk("chkc0"), chk("chkc1")],
+                    def: RuleDef::Char { parts: vec![CharPart::Range(LitChar::canon('b'), LitChar::canon('c'))], checks_before: 1 },
+                }],
+            ));
+            v.push(("extern", vec![Rule::ext("H", "hrt::user::tok", None)]));
+            v.push(("extern-typed", vec![Rule::ext("H", "hrt::user::tokt", Some("hrt::user::Tok"))]));
+        } else {
+            v.push(("extern-ctx", vec![Rule::ext("H", "hrt::user::tok_ctx", None)]));
+        }
+        v
+    };
+    let common = vec![
+        Rule::normal("X", vec![Directive::String, Directive::NoSkipWs], seq(vec![lit("b"), opt(lit("b"))])),
+        Rule::normal("Y", vec![Directive::String, Directive::NoSkipWs], lit("c")),
+    ];
+    // contexts: choice arm with a fallback, optional, closure, lookahead, sequence tail
+    let mut ctxs: Vec<Expr> = contexts(&[lit("b")], &ALL_OPS, k_ctx);
+    ctxs.push(choice(vec![hole(), field("z", "X")]));
+    ctxs.push(seq(vec![opt(hole()), opt(field("z", "X"))]));
+    for ctxv in [false, true] {
+        for (kn, krules) in kinds(ctxv) {
+            for c in &ctxs {
+                // the hooked rule as a field, and unnamed
+                for named in [true, false] {
+                    let under_lookahead = {
+                        let mut u = false;
+                        c.visit(&mut |e| {
+                            if let Expr::Not(x) | Expr::And(x) = e {
+                                if count_holes(x) > 0 {
+                                    u = true
+                                }
+                            }
+                        });
+                        u
+                    };
+                    if named && under_lookahead {
+                        continue;
+                    }
+                    let h = if named { field("h", "H") } else { rref("H") };
+                    for root_noskip in [false, true] {
+                        let mut leaves = krules.clone();
+                        leaves.extend(common.iter().cloned());
+                        let g = root_grammar(dirs(root_noskip, &[Directive::Export, Directive::Position]), fill(c, &h), &leaves);
+                        if !wf::well_formed(&g) {
+                            continue;
+                        }
+                        let fam = format!("hooks/{kn}{}", if ctxv { "/ctx" } else { "" });
+                        if b.add(&fam, g, inputs.clone()) {
+                            b.last().user_ctx = ctxv;
+                        }
+                    }
+                }
+            }
+        }
+    }
+    b.cases
+}
+
+// ------------------------------------------------------------------------------------------ C19
+
+pub fn c19(tier: Tier) -> Vec<Case> {
+    let mut b = Builder::new();
+    // thinned C01 trees (every 4th), with struct leaves so that rule events exist
+    for (i, c) in super::e1::c01(tier).into_iter().enumerate() {
+        // every 4th grammar of each of the two families (skipping / not skipping roots alternate)
+        if (i / 2) % 4 == 0 && c.family.starts_with("trees") {
+            let inputs = match &c.inputs {
+                InputSpec::Strings { alphabet, max_len } => InputSpec::Strings { alphabet: alphabet.clone(), max_len: (*max_len).min(4) },
+                other => other.clone(),
+            };
+            b.add(&format!("trace/{}", c.family), c.grammar, inputs);
+        }
+    }
+    for (g, names) in memo_bases(Tier::Quick) {
+        for mask in [0u32, 3, 7] {
+            b.add("trace/memo", with_memo(&g, &names, mask), memo_inputs(Tier::Quick));
+        }
+    }
+    for c in c07(Tier::Quick) {
+        let inputs = match &c.inputs {
+            InputSpec::Strings { alphabet, max_len } => InputSpec::Strings { alphabet: alphabet.clone(), max_len: (*max_len).min(4) },
+            other => other.clone(),
+        };
+        if b.add(&format!("trace/{}", c.family), c.grammar.clone(), inputs) {
+            b.last().note = c.note.clone();
+        }
+    }
+    for (i, c) in c14(Tier::Quick).into_iter().enumerate() {
+        if c.user_ctx || i % 3 != 0 {
+            continue;
+        }
+        // checks that fail: a deterministic refusing check instead of the table-driven one
+        let mut g = c.grammar.clone();
+        for r in &mut g.rules {
+            for d in &mut r.directives {
+                if let Directive::Check(p) = d {
+                    if p.last().map(|s| s == "chk0").unwrap_or(false) {
+                        *p = vec!["hrt".into(), "user".into(), "chk_nob".into()];
+                    }
+                }
+            }
+        }
+        b.add(&format!("trace/{}", c.family), g, c.inputs.clone());
+    }
+    b.cases
+}
+
+// ------------------------------------------------------------------------------------------ C20
+
+pub fn c20(tier: Tier) -> Vec<Case> {
+    let mut b = Builder::new();
+    let n = if tier == Tier::Quick { 20 } else { 40 };
+    let mut k = 0;
+    // memoized first (every rule memoized), then left-recursive
+    let bases = memo_bases(Tier::Quick);
+    let step = (bases.len() / (n / 2)).max(1);
+    for (g, names) in bases.into_iter().step_by(step) {
+        if k >= n / 2 {
+            break;
+        }
+        b.add("pure/memo", with_memo(&g, &names, 7), InputSpec::Strings { alphabet: vec!['b', 'c', 'x'], max_len: 3 });
+        k += 1;
+    }
+    let lr = c07(Tier::Quick);
+    let step = (lr.len() / (n / 2)).max(1);
+    let mut k2 = 0;
+    for c in lr.into_iter().step_by(step) {
+        if k2 >= n / 2 {
+            break;
+        }
+        let alphabet = match &c.inputs {
+            InputSpec::Strings { alphabet, .. } => alphabet.clone(),
+            _ => vec!['n'],
+        };
+        if b.add("pure/leftrec", c.grammar.clone(), InputSpec::Strings { alphabet: alphabet.into_iter().take(3).collect(), max_len: 3 }) {
+            b.last().note = c.note.clone();
+        }
+        k2 += 1;
+    }
+    let _ = prune;
+    b.cases
+}
